@@ -25,11 +25,12 @@ theorem fontSpace_spec (vb : Rect) (asc desc width : Q) (user : Aff) (hd : desc 
 
 theorem otsvgSpace_spec (vb : Rect) (asc desc width : Q) (user : Aff) (hd : desc ≤ 0) (hh : vb.h ≠ 0) :
     ∃ t, mapViewboxToOtsvgSpace vb asc desc width user = .ok t ∧
-      ∀ p, t.app p = user.app (specPlacementOtSvg vb asc desc width p) := by
+      ∀ p, t.app p = (⟨1, 0, 0, -1, 0, 0⟩ : Aff).app (user.app (specPlacement vb asc desc width p)) := by
   simp only [mapViewboxToOtsvgSpace, scaleViewboxToFontMetrics, hd, hh, not_true_eq_false, ↓reduceIte]
   refine ⟨_, rfl, ?_⟩
   intro p
-  simp only [Aff.composeLtr3, Aff.composeLtr2, specPlacementOtSvg, Aff.app, Aff.mul]
+  simp only [Aff.composeLtr, List.reverse_cons, List.reverse_nil, List.nil_append, List.cons_append, List.foldl_cons,
+    List.foldl_nil, specPlacement, Aff.app, Aff.mul, Aff.id]
   simp only [Pt.mk.injEq]; constructor <;> ring
 
 /-- the three facts of the sentence: top of viewBox → ascender, bottom → descender, centre → width/2 -/
